@@ -1,5 +1,5 @@
 ---- MODULE MC_ReqMgr ----
 EXTENDS ReqMgr
 MCCallers == {"c1", "c2", "c3"}
-MCImages == {"img1", "img2"}
+MCImages == {"quay.io/verif/app:v1", "quay.io/verif/app:v2"}
 ====
